@@ -720,6 +720,8 @@ class Registry:
                 return VOpaque(z3.Function(base, isort, ValS)(i))
             if n == 'NoneT':
                 return VNone
+            if n in ALIASES:
+                return self.indexed_of_type(I, ast.parse(ALIASES[n], mode='eval').body, base, i, module)
         if isinstance(ty, ast.Call) and isinstance(ty.func, ast.Name):
             n = ty.func.id
             if n == 'Opt':
